@@ -595,6 +595,38 @@ impl Sim {
                 (sender, Kinded::Swap { pool: pool_id.clone(), offer: offer_coin, ask: ask_denom.clone(), receiver: None, slip, belief: None }, r)
             }
             POp::RoundTrip { .. } => (owner.clone(), Kinded::Advance, Ok(AppResponse::default())),
+            POp::RouteSameDenomHop { user, pool, asset, amt, slip, lead_in } => {
+                let sender = self.user(*user);
+                match choose_pref(self, *pool, &|p| p.all_reserves_positive()) {
+                    None => (sender, Kinded::Bad("same-denom hop without pools".into()), Err("no pool".into())),
+                    Some(p) => {
+                        let i = *asset as usize % p.n();
+                        let d = p.denoms[i].clone();
+                        let mut route = vec![];
+                        let mut first_denom = d.clone();
+                        if *lead_in {
+                            // an ordinary hop into d first, then d -> d on the same pool
+                            let j = (i + 1) % p.n();
+                            first_denom = p.denoms[j].clone();
+                            route.push(Hop { pool: p.id.clone(), denom_in: p.denoms[j].clone(), denom_out: d.clone() });
+                        }
+                        route.push(Hop { pool: p.id.clone(), denom_in: d.clone(), denom_out: d.clone() });
+                        let fi = p.idx(&first_denom).unwrap();
+                        let amount = amt.resolve(p.reserves[fi].max(1)).min(10u128.pow(34));
+                        let operations: Vec<pm::SwapOperation> = route
+                            .iter()
+                            .map(|h| pm::SwapOperation::MantraSwap { token_in_denom: h.denom_in.clone(), token_out_denom: h.denom_out.clone(), pool_identifier: h.pool.clone() })
+                            .collect();
+                        let offer_coin = coin(amount, &first_denom);
+                        let r = self.w.pm_exec(
+                            &sender,
+                            &pm::ExecuteMsg::ExecuteSwapOperations { operations, minimum_receive: None, receiver: None, max_slippage: slip.to_decimal() },
+                            &[offer_coin.clone()],
+                        );
+                        (sender, Kinded::Route { hops: route, offer: offer_coin, receiver: None, min: None, slip: slip.to_decimal(), simple: false }, r)
+                    }
+                }
+            }
         };
 
         self.last_obs = None;
